@@ -1588,12 +1588,32 @@ def h_get_disjoint(ctx, p):
         return
     ctx.classes['access'] += 1
     before = p.events[:acc[0]]
-    ended = [e for e in before if (e[0] == 'next' and e[-1] == 'None') or e[0] == 'exhausted']
-    ctx.req('MUSTPASS', bool(ended), nm,
-            'the unchecked body may be entered only after the pairwise overlap pre-check ran to its end', p)
-    eq_true = [e for e in before if _request_eq(e) is True]
+    eq_true = [e for e in before if _request_eq(e) is True or e[0] == 'pair-equal']
     ctx.req('MUSTPASS', not eq_true, nm,
             'no path on which two request keys compared equal may reach the unchecked body (it must panic)', p)
+    # all pairs i < j < J of the request array were compared (and found different) when the
+    # container is first touched
+    req = p.arg.get(1)
+
+    def mine(k):
+        return k == req or (isinstance(k, tuple) and isinstance(req, tuple) and k[:len(req)] == req)
+    first = [e for e in p.events if e[0] == 'pairs']
+    done = None
+    rec = None
+    if first:
+        for k, ok, r, _ in first[0][1]:
+            if mine(k):
+                done, rec = ok, r
+    else:
+        for k in p.st.pairs:
+            if mine(k):
+                done, rec = p.E.pairs_complete(p.st, k), p.st.pairs.get(k)
+    if done is None:
+        # the request array was never iterated: only sound when it has at most one element
+        done = p.z.entails_le(Term('$J'), 1)
+    ctx.req('PAIRS', bool(done), nm,
+            'the unchecked body may be entered only after EVERY pair of request keys was compared '
+            '(compared prefix of the request array when the container is first touched: %s)' % (rec,), p)
 
 
 # ------------------------------------------------------------------------------ thin delegations
